@@ -94,6 +94,10 @@ def setup_side(env, disk_files=None, root=None):
     for k, v in (env.get('environ_extra') or {}).items():
         _os.environ[k] = v
         S.fired('env_extra_variable')
+    S.CAPTURE_STYLE[0] = env.get('capture') or 'tap'
+    si = env.get('stdin')
+    if si:
+        attach_stdin(si)
     g = env.get('gc')
     if g:
         import gc
@@ -107,6 +111,41 @@ def setup_side(env, disk_files=None, root=None):
 
 
 GC_BETWEEN = [False]
+
+STDIN_TEXT = '# wires.txt\n-w 10,0,3,-5.2,0,3,5.2,0.001\n--excitation-pulse=5,1\n-w 10,0,6,-5.2,0,6,5.2,0.001\n'
+_KEEP = []
+
+
+def attach_stdin(kind):
+    """What file descriptor 0 of this process is connected to is not part of
+    a command line: /dev/null, a pipe with pending text (the rest of a file a
+    surrounding shell loop is reading), an idle pipe, a pipe at end of file,
+    a regular file."""
+    import os
+    if kind == 'null':
+        fd = os.open(os.devnull, os.O_RDONLY)
+    elif kind == 'file':
+        import tempfile
+        f = tempfile.TemporaryFile()
+        f.write(STDIN_TEXT.encode())
+        f.seek(0)
+        _KEEP.append(f)
+        fd = f.fileno()
+    else:
+        fd, w = os.pipe()
+        if kind == 'data':
+            os.write(w, STDIN_TEXT.encode())
+            os.close(w)
+        elif kind == 'eof':
+            os.close(w)
+        else:                       # 'idle': the writer stays open and silent
+            _KEEP.append(w)
+    os.dup2(fd, 0)
+    try:
+        sys.stdin = open(0, closefd=False)
+    except OSError:
+        pass
+    S.fired('stdin_' + kind)
 
 
 def poison_value(env):
